@@ -72,15 +72,15 @@ func (cs *c10Case) key() string {
 
 // ---- (i) mutators ------------------------------------------------------------------------------
 
-type selRef struct {
+type c10SelRef struct {
 	set    *ast.SelectionSet
 	parent *ast.Field // nil for operation / fragment roots
 }
 
-func collectSels(doc *ast.QueryDocument) (sets []selRef, fields []*ast.Field) {
+func c10CollectSels(doc *ast.QueryDocument) (sets []c10SelRef, fields []*ast.Field) {
 	var walk func(ss *ast.SelectionSet, parent *ast.Field)
 	walk = func(ss *ast.SelectionSet, parent *ast.Field) {
-		sets = append(sets, selRef{ss, parent})
+		sets = append(sets, c10SelRef{ss, parent})
 		for _, s := range *ss {
 			switch x := s.(type) {
 			case *ast.Field:
@@ -102,7 +102,7 @@ func collectSels(doc *ast.QueryDocument) (sets []selRef, fields []*ast.Field) {
 	return
 }
 
-func printDoc(doc *ast.QueryDocument) string {
+func c10PrintDoc(doc *ast.QueryDocument) string {
 	var b bytes.Buffer
 	formatter.NewFormatter(&b).FormatQueryDocument(doc)
 	return b.String()
@@ -119,7 +119,7 @@ func c10Mutate(r *hx.Rand, schema *ast.Schema, op *fed.Op, how string) (query st
 		return "", nil, false
 	}
 	opName = op.OpName
-	sets, fields := collectSels(doc)
+	sets, fields := c10CollectSels(doc)
 	o := doc.Operations[0]
 	lit := func(raw string, k ast.ValueKind) *ast.Value { return &ast.Value{Raw: raw, Kind: k} }
 	switch how {
@@ -246,10 +246,10 @@ func c10Mutate(r *hx.Rand, schema *ast.Schema, op *fed.Op, how string) (query st
 	default:
 		return "", nil, false
 	}
-	return printDoc(doc), opName, true
+	return c10PrintDoc(doc), opName, true
 }
 
-func exchangeKeys(exs []*fed.WireExchange) []string {
+func c10ExchangeKeys(exs []*fed.WireExchange) []string {
 	var out []string
 	for _, ex := range exs {
 		for i := range ex.Queries {
@@ -285,7 +285,7 @@ func c10InvalidCheck(ctx *Ctx, pl *fwPool, idx int, cs c10Case) {
 	batch := cs.ValidOp != nil
 	var part interface{}
 	if batch {
-		v := jsonOf(res.Body)
+		v := fwJSONOf(res.Body)
 		arr, ok := v.([]interface{})
 		if !ok || len(arr) != 2 {
 			fail("property-fails", "batch response is not an array of two results", res.Body, nil)
@@ -293,10 +293,10 @@ func c10InvalidCheck(ctx *Ctx, pl *fwPool, idx int, cs c10Case) {
 		}
 		part = arr[1]
 	} else {
-		part = jsonOf(res.Body)
+		part = fwJSONOf(res.Body)
 	}
 	pb, _ := json.Marshal(part)
-	cr := wellFormed(res.Status, string(pb))
+	cr := fwWellFormed(res.Status, string(pb))
 	switch {
 	case !cr.OK:
 		fail("property-fails", "answer to an invalid operation ("+cs.Mutation+") not well-formed: "+cr.Why, res.Body, nil)
@@ -314,9 +314,9 @@ func c10InvalidCheck(ctx *Ctx, pl *fwPool, idx int, cs c10Case) {
 		vb := *cs.ValidOp
 		vo, err := pl.Run(vb)
 		if err == nil && vo.Crash == "" && !vo.Timeout {
-			if hx.Canon(exchangeKeys(res.Exchanges)) != hx.Canon(exchangeKeys(vo.Res.Exchanges)) {
+			if hx.Canon(c10ExchangeKeys(res.Exchanges)) != hx.Canon(c10ExchangeKeys(vo.Res.Exchanges)) {
 				fail("property-fails", "in a client batch [valid, invalid ("+cs.Mutation+")] the sub-requests sent differ from those of the valid operation alone",
-					map[string]interface{}{"batch": exchangeKeys(res.Exchanges), "valid_alone": exchangeKeys(vo.Res.Exchanges)}, nil)
+					map[string]interface{}{"batch": c10ExchangeKeys(res.Exchanges), "valid_alone": c10ExchangeKeys(vo.Res.Exchanges)}, nil)
 			}
 			ctx.Rep.Count("invalid operation in a client batch with a valid one")
 		}
@@ -334,7 +334,7 @@ func c10InvalidCheck(ctx *Ctx, pl *fwPool, idx int, cs c10Case) {
 	ans, _ := m["answer"].(string)
 	ex, _ := m["executes"].(json.Number)
 	isOpMsg := false
-	for _, mm := range errMessages(cr.Errors) {
+	for _, mm := range fwErrMessages(cr.Errors) {
 		for _, p := range c10OpMsg {
 			if strings.HasPrefix(mm, p) {
 				isOpMsg = true
@@ -344,7 +344,7 @@ func c10InvalidCheck(ctx *Ctx, pl *fwPool, idx int, cs c10Case) {
 	if ex.String() != "0" != (len(res.Exchanges) != 0) {
 		fail("model-mismatch", fmt.Sprintf("model: %s Execute calls, implementation: %d downstream calls", ex, len(res.Exchanges)), res.Body, m)
 	} else if strings.HasSuffix(ans, "operationError") != isOpMsg {
-		fail("model-mismatch", "model answers "+ans+", the gateway's errors are "+strings.Join(errMessages(cr.Errors), "; "), res.Body, m)
+		fail("model-mismatch", "model answers "+ans+", the gateway's errors are "+strings.Join(fwErrMessages(cr.Errors), "; "), res.Body, m)
 	}
 }
 
@@ -416,7 +416,7 @@ func c10ErrorsCheck(ctx *Ctx, pl *fwPool, idx int, cs c10Case) {
 		}
 	}
 	ctx.Rep.Case(cs.key(), len(applied) > 0)
-	cr := wellFormed(res.Status, res.Body)
+	cr := fwWellFormed(res.Status, res.Body)
 	if !cr.OK {
 		fail("property-fails", "response not well-formed: "+cr.Why, res.Body, nil)
 		return
@@ -620,7 +620,7 @@ func c10FormatCheck(ctx *Ctx, idx int, f c10Format) {
 			out = gqlerrors.ErrorList{}
 		}
 		jb, _ := json.Marshal(out)
-		got = jsonOf(string(jb))
+		got = fwJSONOf(string(jb))
 	}()
 	// oracle: every *Error leaf handed in comes back unchanged
 	for _, t := range f.Trees {
@@ -642,7 +642,7 @@ func c10FormatCheck(ctx *Ctx, idx int, f c10Format) {
 			found := false
 			if arr, ok := got.([]interface{}); ok {
 				for _, g := range arr {
-					if hx.Canon(g) == hx.Canon(jsonOf(string(wb))) {
+					if hx.Canon(g) == hx.Canon(fwJSONOf(string(wb))) {
 						found = true
 					}
 				}
@@ -824,10 +824,10 @@ func runC10(ctx *Ctx) error {
 						}
 						cs.Faults = []fed.WireFault{{Service: ex.Service, HTTPCall: ex.HTTPCall, Position: p, Kind: kind, Errors: es}}
 						step := "root"
-						if p < len(ex.Queries) && isChildQuery(ex.Queries[p]) {
+						if p < len(ex.Queries) && fwIsChildQuery(ex.Queries[p]) {
 							step = "child"
 						}
-						ctx.Rep.Count(fmt.Sprintf("errors payload | %s step | position %s | %d error(s)", step, posClass(p, ex.N), len(es)))
+						ctx.Rep.Count(fmt.Sprintf("errors payload | %s step | position %s | %d error(s)", step, fwPosClass(p, ex.N), len(es)))
 						if tag < 4 && ops <= 2 {
 							ctx.Rep.Sample(map[string]interface{}{"query": v.Query, "fault": cs.Faults[0]})
 						}
